@@ -405,7 +405,7 @@ def build_cases(reg, types, rng, per_type, depth):
     for t in types:
         variants = [arg("x", t)]
         dv = U.default_for(reg, t, rng, 2)
-        if dv is not U._NO and not (dv is None and t[0] == "nonNull"):
+        if dv is not U._NO and U.conforms(reg, t, dv) is None:
             variants.append(arg("x", t, [dv], "x_py"))
         for a in variants:
             spec = [a]
@@ -855,7 +855,7 @@ def build_abstract(reg, types, rng, n):
         defaults = []
         for _k in range(3):
             dv = U.default_for(reg, t, rng, 2)
-            defaults.append(None if (dv is U._NO or (dv is None and t[0] == "nonNull")) else [dv])
+            defaults.append(None if (dv is U._NO or U.conforms(reg, t, dv) is not None) else [dv])
         ispec = [arg("x", t, defaults[0])]
         aspec = [arg("x", t, defaults[1], "xa"), arg("a_extra", N("Int"), [5], "extra_a")]
         bspec = [arg("b_extra", L(N("String")), None, "extra_b"), arg("x", t, defaults[2], "xb")]
